@@ -854,6 +854,411 @@ def _corr_coupled(ctx, drv):
     ctx.sample({"stream": "coupled", "worst_scaled_error": {k: float("%.2e" % v) for k, v in worst.items()}})
 
 
+# ---------------------------------------------------------------------------------------
+# stream (p2): auto-detected rigid-body set of coupled systems (exact)
+
+
+def _partc_cases(ctx, rng):
+    tol = 0.005
+    near = [0.0, tol, -tol, float(np.nextafter(tol, 0)), float(np.nextafter(tol, 1)), -float(np.nextafter(tol, 0)),
+            -float(np.nextafter(tol, 1)), 0.0049, -0.0049, 0.0051, 1e-9, -1e-12]
+    out = []
+    for _ in range(ctx.pick(400, 4000)):
+        n = int(rng.integers(2, 7))
+        rf = sorted(int(i) for i in np.nonzero(rng.random(n) < 0.2)[0])
+        if len(rf) > n - 2:
+            rf = rf[: max(0, n - 2)]
+        nr = n - len(rf)
+        K = np.zeros((nr, nr))
+        B = np.zeros((nr, nr))
+        small = rng.random(nr) < 0.5  # candidate rigid-body positions
+        for X in (K, B):
+            for i in range(nr):
+                for j in range(nr):
+                    if small[i] or small[j]:
+                        X[i, j] = float(rng.choice(near)) if rng.random() < 0.5 else 0.0
+                    else:
+                        X[i, j] = float(rng.standard_normal() * 50) if (i == j or rng.random() < 0.5) else 0.0
+        if rng.random() < 0.3 and small.any():
+            # one entry well above the tolerance in the row or in the column only, in k or in b only
+            i = int(rng.choice(np.nonzero(small)[0]))
+            j = int(rng.integers(0, nr))
+            X = K if rng.random() < 0.5 else B
+            if rng.random() < 0.5:
+                X[i, j] = float(rng.choice([1.0, -1.0, 0.006, -0.006]))
+            else:
+                X[j, i] = float(rng.choice([1.0, -1.0, 0.006, -0.006]))
+        off = ~np.eye(nr, dtype=bool)
+        if not (np.any(K[off]) or np.any(B[off])):
+            a, b_ = (0, 1) if nr > 1 else (0, 0)
+            K[a, b_] = 1e-9  # keep the system coupled (otherwise the uncoupled test `abs(k) < tol` applies)
+        out.append((n, rf, K, B))
+    return out
+
+
+def _corr_partc(ctx, drv):
+    ode = _ode()
+    rng = ctx.np_rng(6)
+    cases = _partc_cases(ctx, rng)
+    req = ["partc %d %s %s %s" % (n, " ".join([str(len(rf))] + [str(i) for i in rf]), _fmat(K), _fmat(B))
+           for n, rf, K, B in cases]
+    rep = drv.ask(req)
+    for (n, rf, K, B), r in zip(cases, rep):
+        nonrf = [i for i in range(n) if i not in rf]
+        Kf, Bf = np.zeros((n, n)), np.zeros((n, n))
+        Kf[np.ix_(nonrf, nonrf)] = K
+        Bf[np.ix_(nonrf, nonrf)] = B
+        for i in rf:
+            Kf[i, i] = 1e6
+        parts = r.split("|")
+        model = [[int(x) for x in p_.split()] for p_ in parts[:7]] + [parts[7] == "1"]
+        inp = {"stream": "partc", "n": n, "rf": rf, "k": K.tolist(), "b": B.tolist()}
+        try:
+            s = ode.SolveExp2(None, Bf, Kf, 0.01, rf=rf or None)
+        except Exception as e:  # noqa: BLE001
+            ctx.disagree("partition-coupled-raises", inp, type(e).__name__ + ": " + str(e)[:80], model)
+            continue
+        impl = [_idx(s.nonrf, n), _idx(s.rf, n), _idx(s.rb, n), _idx(s.el, n), _idx(s._rb, n - len(rf)),
+                _idx(s._el, n - len(rf))]
+        if impl != model[:6] or bool(s.slices) != model[7]:
+            ctx.disagree("partition-coupled", inp, impl + [bool(s.slices)], model)
+        else:
+            try:
+                with warnings.catch_warnings():
+                    warnings.simplefilter("ignore")
+                    u = ode.SolveUnc(None, Bf, Kf, 0.01, rf=rf or None)
+                # get_su_eig shrinks kdof to the elastic set: kdof = nonrf[_el] = el (el_order_agrees)
+                got = [_idx(u.rb, n), _idx(u.el, n), _idx(u.kdof, n)]
+                if got != [model[2], model[3], model[3]]:
+                    ctx.disagree("partition-coupled-SolveUnc", inp, got, [model[2], model[3], model[3]])
+            except (np.linalg.LinAlgError, ValueError):
+                ctx.count("partc:SolveUnc-eig-refuses")
+        ctx.case((n, tuple(rf), K.tobytes(), B.tobytes()), nontrivial=bool(model[2]) and bool(model[3]),
+                 branch="partc:auto")
+        if model[2]:
+            ctx.count("partc:with-rb")
+        if rf:
+            ctx.count("partc:with-rf")
+        if model[7]:
+            ctx.count("partc:slices")
+        else:
+            ctx.count("partc:no-slices")
+
+
+# ---------------------------------------------------------------------------------------
+# stream (q): coupled path of SolveUnc driven with the implementation's own eigen-decomposition
+# stream (r): SolveExp2 driven with the implementation's own E, P, Q
+# The Lean model (`coupledRun`, `rbStep`, `runExp`) gets pc.lam/ur/ur_inv (resp. E, P, Q) as the specification
+# instance; the hypotheses of delconj_recovers / exp2_step_exact (DelconjSpec / ExpSpec) are measured on
+# that instance with plain numpy/scipy; M^-1 F, the static initial state and the acceleration are computed here.
+
+
+def _cbits(z):
+    z = complex(z)
+    return bits(z.real) + " " + bits(z.imag)
+
+
+def _cmat(a):
+    return " ".join(_cbits(z) for z in np.asarray(a, complex).ravel())
+
+
+def _fmat(a):
+    return " ".join(bits(x) for x in np.asarray(a, float).ravel())
+
+
+def _gen_pc_specs(ctx, rng, n_general, n_modal):
+    out = []
+    tries = 0
+    while len(out) < n_general and tries < 20 * n_general:
+        tries += 1
+        s = _gen_general(rng)
+        if s["nz"] and not (s["style"] == "skew-on-zero-stiffness" and s["nz"] >= 2):
+            continue
+        s["static"] = bool(s["d0"] is None and s["nz"] == 0 and rng.random() < 0.5)  # K_ee must be non-singular
+        out.append(s)
+    for _ in range(n_modal):
+        c = _gen_coupled(ctx, rng)
+        if min(c["k"]) == 0 and not c.get("blockphi"):
+            continue
+        M, B, K = _physical(c, np.array(c["phi"]))
+        out.append({"kind": "general", "n": c["n"], "h": c["h"], "order": c["order"], "style": "modal", "nz": 0,
+                    "M": M.tolist(), "B": B.tolist(), "K": K.tolist(), "F": c["F"], "d0": c["d0"], "v0": c["v0"],
+                    "static": bool(c["d0"] is None and rng.random() < 0.5), "blockphi": bool(c.get("blockphi"))})
+    return out
+
+
+def _static_d0(K, F0, el, n):
+    d0 = np.zeros(n)
+    if len(el) and np.any(F0[el]):
+        d0[el] = np.linalg.solve(K[np.ix_(el, el)], F0[el])
+    return d0
+
+
+def _state_matrix(M, B, K):
+    n = K.shape[0]
+    Mi = np.linalg.inv(M)
+    A = np.zeros((2 * n, 2 * n))
+    A[:n, :n] = -Mi @ B
+    A[:n, n:] = -Mi @ K
+    A[n:, :n] = np.eye(n)
+    return A
+
+
+def _delconj_spec(pc, A):
+    """the five conditions of DelconjSpec measured on the kept data: (residual, cond(fullU)) or a string"""
+    lam = np.asarray(pc.lam)
+    ur = np.vstack([np.asarray(pc.ur_v), np.asarray(pc.ur_d)])
+    ui = np.hstack([np.asarray(pc.ur_inv_v), np.asarray(pc.ur_inv_d)])
+    if np.any(lam.imag < 0):
+        return "conjugates-not-deleted"
+    cpx = lam.imag > 0
+    U = np.hstack([ur / np.where(cpx, 2.0, 1.0)[None, :], np.conj(ur[:, cpx]) / 2.0])
+    V = np.vstack([ui, np.conj(ui[cpx])])
+    L = np.concatenate([lam, np.conj(lam[cpx])])
+    if U.shape[0] != U.shape[1]:
+        return "rebuilt-decomposition-not-square"
+    cond = np.linalg.cond(U)
+    nA = max(1.0, np.abs(A).max())
+    res = max(np.abs(U @ V - np.eye(U.shape[0])).max(), np.abs(V @ U - np.eye(U.shape[0])).max(),
+              np.abs(A @ U - U * L[None, :]).max() / (nA * max(1.0, np.abs(U).max())))
+    re = ~cpx
+    if re.any():
+        res = max(res, np.abs(ur[:, re].imag).max() / max(1e-300, np.abs(ur).max()),
+                  np.abs(ui[re].imag).max() / max(1e-300, np.abs(ui).max()))
+    return float(res), float(cond)
+
+
+def _corr_pc(ctx, drv):
+    ode = _ode()
+    rng = ctx.np_rng(7)
+    specs = _gen_pc_specs(ctx, rng, ctx.pick(250, 2500), ctx.pick(120, 1200))
+    jobs = []
+    for s in specs:
+        M, B, K, F = (np.array(s[x], float) for x in ("M", "B", "K", "F"))
+        n, h, o = s["n"], s["h"], s["order"]
+        d0, v0 = _arr(s["d0"]), _arr(s["v0"])
+        inp = dict(s, stream="pc")
+        try:
+            with warnings.catch_warnings():
+                warnings.simplefilter("ignore")
+                ts = ode.SolveUnc(M, B, K, h, order=o)
+                sol = ts.tsolve(F, d0, v0, static_ic=s["static"])
+        except Exception as e:  # noqa: BLE001
+            ctx.disagree("pc-raises", inp, "%s: %s" % (type(e).__name__, str(e)[:80]), "a solution")
+            continue
+        if ts.unc:
+            ctx.skip("pc: system turned out uncoupled")
+            continue
+        el, rb = _idx(ts.el, n), _idx(ts.rb, n)
+        kd = _idx(ts.kdof, n)
+        if kd != el:
+            ctx.disagree("pc-kdof", inp, kd, el)
+            continue
+        pc = ts.pc
+        nt = F.shape[1]
+        dm0 = d0.copy() if d0 is not None else (_static_d0(K, F[:, 0], el, n) if s["static"] else np.zeros(n))
+        vm0 = v0.copy() if v0 is not None else np.zeros(n)
+        job = {"s": s, "inp": inp, "sol": sol, "el": el, "rb": rb, "req": [], "cond": 1.0, "M": M, "B": B, "K": K,
+               "F": F, "d0": dm0, "v0": vm0}
+        if el:
+            Mee, Bee, Kee = (X[np.ix_(el, el)] for X in (M, B, K))
+            A = _state_matrix(Mee, Bee, Kee)
+            sp = _delconj_spec(pc, A)
+            if isinstance(sp, str):
+                ctx.skip("pc: " + sp)
+                continue
+            res, cond = sp
+            if cond > 1e6 or not pc.eig_success:
+                ctx.skip("pc: eigenvectors ill conditioned (cond > 1e6)")
+                continue
+            job["cond"] = cond
+            ctx.count("pc:spec-checked")
+            if not res <= 1e-9 * max(10.0, cond):
+                # the implementation's own decomposition does not satisfy the hypotheses of delconj_recovers
+                ctx.disagree("pc-eig-spec", inp, {"residual": res, "cond": cond}, "<= 1e-9*cond")
+                continue
+            imf = np.linalg.solve(Mee, F[el])
+            ne, N = len(el), len(pc.lam)
+            job["req"].append("cpl %d %s %d %d %s %s %s %s %s %s %s %d %s" % (
+                o, bits(h), ne, N, _cmat(pc.lam), _cmat(pc.ur_v), _cmat(pc.ur_d), _cmat(pc.ur_inv_v),
+                _cmat(pc.ur_inv_d), _fmat(dm0[el]), _fmat(vm0[el]), nt, _fmat(imf)))
+            if np.any(np.abs(np.asarray(pc.lam)) < 5e-5):
+                ctx.count("pc:small-eigenvalue-branch")
+        if rb:
+            rbf = np.linalg.solve(M[np.ix_(rb, rb)], F[rb])
+            job["rbf"] = rbf
+            for i, g in enumerate(rb):
+                job["req"].append("rbrun %d %s %d %s %s %s" % (o, bits(h), nt, bits(dm0[g]), bits(vm0[g]), _fmat(rbf[i])))
+        jobs.append(job)
+    flat = [r for j in jobs for r in j["req"]]
+    rep = iter(drv.ask(flat))
+    worst = 0.0
+    for j in jobs:
+        s, sol, el, rb, F = j["s"], j["sol"], j["el"], j["rb"], j["F"]
+        n, nt = s["n"], F.shape[1]
+        d, v = np.zeros((n, nt)), np.zeros((n, nt))
+        bad = None
+        if el:
+            r = next(rep)
+            if not r.startswith("ok "):
+                raise Infra("model refuses a pc-stream system: " + r)
+            x = np.array([unbits(t) for t in r.split()[1:]])
+            d[el] = x[: len(el) * nt].reshape(len(el), nt)
+            v[el] = x[len(el) * nt:].reshape(len(el), nt)
+        for i, g in enumerate(rb):
+            r = next(rep)
+            x = np.array([unbits(t) for t in r.split()[1:]])
+            d[g], v[g] = x[:nt], x[nt:]
+        a = np.zeros((n, nt))
+        M, B, K = j["M"], j["B"], j["K"]
+        if el:
+            ee = np.ix_(el, el)
+            a[el] = np.linalg.solve(M[ee], F[el] - B[ee] @ v[el] - K[ee] @ d[el])
+        if rb:
+            a[rb] = j["rbf"]
+        sd = np.abs(d).max() + s["h"] * np.abs(v).max() + 1e-300
+        sv = np.abs(v).max() + sd / s["h"]
+        sa = np.abs(a).max() + sv / s["h"]
+        tol = 1e-9 * max(10.0, j["cond"])
+        for nm, iv, mv, sc in (("d", sol.d, d, sd), ("v", sol.v, v, sv), ("a", sol.a, a, sa)):
+            e = float(np.abs(np.asarray(iv) - mv).max() / sc)
+            worst = max(worst, e / max(10.0, j["cond"]))
+            if not e <= tol:
+                bad = (nm, e)
+                break
+        ctx.case(json.dumps(s, sort_keys=True), nontrivial=bool(el) and nt >= 3, branch="pc:order%d" % s["order"])
+        ctx.count("pc:style-" + s["style"])
+        if rb:
+            ctx.count("pc:with-rigid-body-modes")
+        if s["static"]:
+            ctx.count("pc:static-ic")
+        if bad:
+            ctx.disagree("pc-" + bad[0], j["inp"], {bad[0]: bad[1]}, {"tolerance": tol})
+    ctx.sample({"stream": "pc", "worst_error_over_cond": float("%.2e" % worst), "systems": len(jobs)})
+
+
+def _epq_reference(A, h, order, half):
+    """E, P, Q of the hold problem from scipy's expm of the augmented matrix (independent of pyYeti)"""
+    import scipy.linalg as sla
+
+    m = A.shape[0]
+    big = np.zeros((3 * m, 3 * m))
+    big[:m, :m] = A
+    big[:m, m:2 * m] = np.eye(m)
+    big[m:2 * m, 2 * m:] = np.eye(m)
+    X = sla.expm(big * h)
+    E, I1, J = X[:m, :m], X[:m, m:2 * m], X[:m, 2 * m:]
+    if order == 1:
+        P, Q = I1 - J / h, J / h
+    else:
+        P, Q = I1, None
+    return E, P[:, :half], (None if Q is None else Q[:, :half])
+
+
+def _corr_exp2(ctx, drv):
+    ode = _ode()
+    rng = ctx.np_rng(8)
+    specs = []
+    for _ in range(ctx.pick(250, 2500)):
+        s = _gen_general(rng)
+        s["static"] = bool(s["d0"] is None and s["nz"] == 0 and rng.random() < 0.4)
+        s["rb"], s["rf"] = None, []
+        specs.append(s)
+    for _ in range(ctx.pick(250, 2500)):
+        u = _gen_sys(ctx, rng)
+        m, b, k = _mats(u, "2d")
+        specs.append({"kind": "general", "n": u["n"], "h": u["h"], "order": u["order"], "style": "uncoupled", "nz": 0,
+                      "M": (np.eye(u["n"]) if m is None else m).tolist(), "B": b.tolist(), "K": k.tolist(),
+                      "F": u["F"], "d0": u["d0"], "v0": u["v0"], "static": u["static"], "rb": u["rb"], "rf": u["rf"],
+                      "unc": {"m": u["m"], "b": u["b"], "k": u["k"], "pack": u["pack"]}})
+    jobs, reqs = [], []
+    for s in specs:
+        M, B, K, F = (np.array(s[x], float) for x in ("M", "B", "K", "F"))
+        n, h, o = s["n"], s["h"], s["order"]
+        d0, v0 = _arr(s["d0"]), _arr(s["v0"])
+        inp = dict(s, stream="exp2")
+        try:
+            with warnings.catch_warnings():
+                warnings.simplefilter("ignore")
+                if "unc" in s:
+                    u = s["unc"]
+                    mm, bb, kk = _mats({"m": u["m"], "b": u["b"], "k": u["k"]}, u["pack"])
+                    ts = ode.SolveExp2(mm, bb, kk, h, rb=s["rb"], rf=s["rf"] or None, order=o)
+                else:
+                    ts = ode.SolveExp2(M, B, K, h, order=o)
+                sol = ts.tsolve(F, d0, v0, static_ic=s["static"])
+        except Exception as e:  # noqa: BLE001
+            ctx.disagree("exp2-raises", inp, "%s: %s" % (type(e).__name__, str(e)[:80]), "a solution")
+            continue
+        kd, el, rf = _idx(ts.kdof, n), _idx(ts.el, n), _idx(ts.rf, n)
+        if not kd:
+            ctx.skip("exp2: no dynamic equation")
+            continue
+        ks, nt = len(kd), F.shape[1]
+        kk_ = np.ix_(kd, kd)
+        A = _state_matrix(M[kk_], B[kk_], K[kk_])
+        E = np.block([[ts.E_vv, ts.E_vd], [ts.E_dv, ts.E_dd]])
+        P = np.asarray(ts.P)
+        Q = np.asarray(ts.Q) if o == 1 else None
+        Er, Pr, Qr = _epq_reference(A, h, o, ks)
+        es = max(1.0, np.abs(Er).max())
+        res = max(np.abs(E - Er).max() / es, np.abs(P - Pr).max() / (h * es),
+                  0.0 if Q is None else np.abs(Q - Qr).max() / (h * es))
+        ctx.count("exp2:spec-checked")
+        if not res <= 1e-8:
+            # the implementation's own E, P, Q do not satisfy the hypotheses of exp2_step_exact
+            ctx.disagree("exp2-epq-spec", inp, {"residual": float(res)}, "<= 1e-8")
+            continue
+        if d0 is not None:
+            dm0 = d0.copy()
+        elif s["static"]:
+            dm0 = _static_d0(K, F[:, 0], el, n)
+        else:
+            dm0 = np.zeros(n)
+        vm0 = v0.copy() if v0 is not None else np.zeros(n)
+        imf = np.linalg.solve(M[kk_], F[kd])
+        reqs.append("exp2 %d %d %s %s %s%s %s %d %s" % (
+            o, ks, _fmat(E), _fmat(P), (_fmat(Q) + " ") if o == 1 else "", _fmat(dm0[kd]), _fmat(vm0[kd]), nt, _fmat(imf)))
+        jobs.append((s, inp, sol, kd, rf, M, B, K, F))
+    rep = drv.ask(reqs)
+    worst = 0.0
+    for (s, inp, sol, kd, rf, M, B, K, F), r in zip(jobs, rep):
+        if not r.startswith("ok "):
+            raise Infra("model refuses an exp2-stream system: " + r)
+        n, nt, ks = s["n"], F.shape[1], len(kd)
+        x = np.array([unbits(t) for t in r.split()[1:]])
+        d, v, a = np.zeros((n, nt)), np.zeros((n, nt)), np.zeros((n, nt))
+        d[kd] = x[: ks * nt].reshape(ks, nt)
+        v[kd] = x[ks * nt:].reshape(ks, nt)
+        kk_ = np.ix_(kd, kd)
+        a[kd] = np.linalg.solve(M[kk_], F[kd] - B[kk_] @ v[kd] - K[kk_] @ d[kd])
+        for g in rf:
+            d[g] = F[g] / K[g, g]
+        sd = np.abs(d[kd]).max() + s["h"] * np.abs(v).max() + 1e-300
+        sv = np.abs(v).max() + sd / s["h"]
+        sa = np.abs(a).max() + sv / s["h"]
+        bad = None
+        for nm, iv, mv, sc in (("d", np.asarray(sol.d)[kd], d[kd], sd), ("v", sol.v, v, sv), ("a", sol.a, a, sa)):
+            e = float(np.abs(np.asarray(iv) - mv).max() / sc)
+            worst = max(worst, e)
+            if not e <= 1e-9:
+                bad = (nm, e)
+                break
+        if bad is None and rf:
+            e = float(np.abs(np.asarray(sol.d)[rf] - d[rf]).max() / (np.abs(d[rf]).max() + 1e-300))
+            if not e <= 1e-12:
+                bad = ("d-rf", e)
+        ctx.case(json.dumps(s, sort_keys=True), nontrivial=nt >= 3, branch="exp2:order%d" % s["order"])
+        ctx.count("exp2:style-" + s["style"])
+        if rf:
+            ctx.count("exp2:with-rf")
+        if s["static"] and s["d0"] is None:
+            ctx.count("exp2:static-ic")
+        if bad:
+            ctx.disagree("exp2-" + bad[0], inp, {bad[0]: bad[1]}, {"tolerance": 1e-9})
+    ctx.sample({"stream": "exp2", "worst_scaled_error": float("%.2e" % worst), "systems": len(jobs)})
+
+
 def correspondence(ctx):
     _quiet()
     drv = ctx.driver("C01")
@@ -861,6 +1266,9 @@ def correspondence(ctx):
     _corr_part(ctx, drv)
     _corr_hist(ctx, drv)
     _corr_coupled(ctx, drv)
+    _corr_partc(ctx, drv)
+    _corr_pc(ctx, drv)
+    _corr_exp2(ctx, drv)
     ctx.require_branches(
         ["coef:" + r for r in "rigid rigidVelo rigidFull under crit over rf partition-error".split()]
         + ["coef-tag:cut:velo", "coef-tag:cut:disp", "coef-tag:cut:rb", "coef-tag:cut:crit",
@@ -870,7 +1278,12 @@ def correspondence(ctx):
            "hist:layout-contiguous", "hist:layout-interleaved", "hist:pack-1d", "hist:pack-2d", "hist:pack-mixed",
            "hist:m-none", "hist:m-given", "hist:rb-auto", "hist:rb-given", "hist:static",
            "coupled:order0", "coupled:order1", "coupled:SolveUnc-coupled", "coupled:SolveExp1",
-           "coupled:with-rigid-body-modes", "coupled:complex-path-rigid-body-recurrence"]
+           "coupled:with-rigid-body-modes", "coupled:complex-path-rigid-body-recurrence",
+           "partc:auto", "partc:with-rb", "partc:with-rf", "partc:slices", "partc:no-slices",
+           "pc:order0", "pc:order1", "pc:spec-checked", "pc:with-rigid-body-modes", "pc:static-ic",
+           "pc:style-modal", "pc:style-skew", "pc:style-sym+skew", "pc:style-sym",
+           "exp2:order0", "exp2:order1", "exp2:spec-checked", "exp2:with-rf", "exp2:static-ic",
+           "exp2:style-uncoupled", "exp2:style-skew", "exp2:style-sym+skew"]
     )
 
 
